@@ -60,6 +60,17 @@ var kvLongID = strings.Repeat("x", 199) + "Z"
 var kvIDs = []string{"a", "b", "ab", "current", "next", "roots", kvLongSym}
 var kvNodeIDs = []string{"n1", "n2", ""}
 
+// IDs are opaque strings. On the back ends that do not map IDs to file names the alphabet also has IDs
+// that a path-cleaning key construction would fold onto others or onto another type's entries
+var kvPathLikeIDs = []string{"a/", "./a", "..", "a//b", "../nodeinfo/a"}
+
+func kvIDsFor(backend string) []string {
+	if backend == world.File {
+		return kvIDs
+	}
+	return append(append([]string{}, kvIDs...), kvPathLikeIDs...)
+}
+
 func kvID(sym string) string {
 	if sym == kvLongSym {
 		return kvLongID
@@ -489,7 +500,7 @@ func (k *kvRunner) probe(id string) {
 // sweep: everything the model knows about
 func (k *kvRunner) sweep() {
 	for _, t := range kvTypes {
-		for _, s := range kvIDs {
+		for _, s := range kvIDsFor(k.backend) {
 			k.checkLoad(t, kvID(s), "sweep-load")
 		}
 	}
@@ -524,6 +535,10 @@ func (k *kvRunner) step(i int, op kvOp) {
 	case "store":
 		_, present := k.model[op.Type][id]
 		payload := fmt.Sprintf("p%d", i)
+		if i%4 == 1 {
+			// records of very different sizes follow each other under one ID (a shorter record over a longer one included)
+			payload += "-" + strings.Repeat("L", 200+37*(i%11))
+		}
 		msg := kvBuild(op.Type, id, payload, op.NodeID)
 		err, ok := k.call("Store", func() error { return k.st.Store(k.ctx, msg) })
 		if !ok {
@@ -642,7 +657,8 @@ func kvGenOps(rng *rand.Rand, backend string, n int) []kvOp {
 				}
 			}
 		}
-		return kvTypes[rng.Intn(len(kvTypes))], kvIDs[rng.Intn(len(kvIDs))]
+		ids := kvIDsFor(backend)
+		return kvTypes[rng.Intn(len(kvTypes))], ids[rng.Intn(len(ids))]
 	}
 	ops := make([]kvOp, 0, n)
 	for len(ops) < n {
